@@ -498,6 +498,9 @@ impl G<'_> {
                 let _ = prev;
                 self.p.marks.push(Mark::Masked { pos, ctx: "paren", depth });
             }
+            if matches!(prev, "squote" | "dquote") {
+                self.put(" ");
+            }
             prev = self.value_part(depth);
             if self.r.chance(1, 3) {
                 // masked delimiter directly after a sub-token
@@ -515,8 +518,14 @@ impl G<'_> {
     /// a value argument: 1..3 parts; never a top-level ',' or '='; does not start with blank
     fn value(&mut self) {
         let n = self.r.range(1, 3);
+        let mut prev = "";
         for _ in 0..n {
-            self.value_part(0);
+            // a quoted literal directly followed by a letter or another quote would change its
+            // suffix / merge with the next literal: keep a blank in between
+            if matches!(prev, "squote" | "dquote") {
+                self.put(" ");
+            }
+            prev = self.value_part(0);
         }
     }
 
@@ -942,12 +951,21 @@ impl G<'_> {
             if self.r.chance(1, 3) {
                 // mnemonic: blanks on both sides
                 let (t, ty) = self.r.pick(MNEMONIC_OPS);
+                let start = self.pos();
                 self.put(" ");
+                let end = self.pos();
+                self.p.marks.push(Mark::Insig { start, end, ctx: "before-mnemonic" });
                 let pos = self.pos();
                 self.put(t);
                 self.p.marks.push(Mark::Op { pos, len: t.len(), ty });
+                // at least one blank, then optional further blanks / comments: one hidden run
+                let start = self.pos();
                 self.put(" ");
-                self.pad("after-op", true);
+                if self.r.chance(self.cfg.pad_pct, 100) {
+                    { let t__ = self.r.pick(&[" ", "\n", "/* c */", "/*é\n*/ "]); self.put(t__) };
+                }
+                let end = self.pos();
+                self.p.marks.push(Mark::Insig { start, end, ctx: "after-op" });
             } else {
                 let (t, ty) = self.r.pick(SYMBOL_OPS);
                 // blanks (not comments) may precede an operator
@@ -969,14 +987,15 @@ impl G<'_> {
     fn expr(&mut self, float: bool, end: ExprEnd) {
         self.enter("expr");
         self.expr_inner(float, 0);
-        // trailing blanks before the terminator are insignificant
-        if self.r.chance(1, 4) {
+        // trailing blanks before the terminator are insignificant; a statement keyword
+        // terminator needs at least one
+        let need = matches!(end, ExprEnd::Stat);
+        if need || self.r.chance(1, 4) {
             let start = self.pos();
-            self.put(" ");
+            { let t__ = self.r.pick(&[" ", " ", "  ", "\n"]); self.put(t__) };
             let e = self.pos();
             self.p.marks.push(Mark::Insig { start, end: e, ctx: "expr-tail" });
         }
-        let _ = end;
         self.leave();
     }
 
@@ -1327,14 +1346,14 @@ impl G<'_> {
                     expect_at: None,
                 });
                 self.expr(false, ExprEnd::Stat);
-                self.put(" ");
                 self.kw("%to");
                 self.blank();
-                self.expr(false, ExprEnd::Stat);
                 if self.r.chance(1, 2) {
-                    self.put(" ");
+                    self.expr(false, ExprEnd::Stat);
                     self.kw("%by");
                     self.blank();
+                    self.expr(false, ExprEnd::Semi);
+                } else {
                     self.expr(false, ExprEnd::Semi);
                 }
                 self.semi();
@@ -1390,7 +1409,6 @@ impl G<'_> {
         self.kw("%if");
         self.blank();
         self.expr(false, ExprEnd::Stat);
-        self.put(" ");
         self.kw("%then");
         self.blank();
         self.body();
